@@ -94,3 +94,69 @@ class CompileRetryLoop(Contract):
         return count, bad
 
     ensures = [prop("transitions-and-result-per-the-state-table", lambda a, old, r: r[0] > 300 and not r[1])]
+
+
+@contract
+class ResolveOverflowChoice(Contract):
+    """BaseTTXConverter.tryResolveOverflow, for every combination of (the very record of last
+    time / no previous record / a different one) x (lookup-level / subtable-level overflow) x
+    (what each resolution answers): the same record object is given up on without touching the
+    table (OverflowErrorRecord defines no __eq__, so two records DESCRIBING the same overflow
+    are not recognised - that only matters for termination, which C06 does not state, and is
+    left unspecified here); a lookup-level overflow goes to the Extension promotion only; a
+    subtable-level overflow tries the split first and the promotion only when the split could
+    do nothing; a resolution that reported success is never followed by another one (each
+    rewrites the table: a second change before the next packing attempt is not what the
+    overflow record described); the answer is the last resolution's answer."""
+    module = "fontTools.ttLib.tables.otBase"
+    qualname = "BaseTTXConverter.tryResolveOverflow"
+    props = ("C06",)
+    shadow_mode = "real"
+    level = "PF"
+    assumptions = ("token-valued: fixLookupOverFlows and fixSubTableOverFlows are scripted stubs (own contracts: FixLookupOverFlows, FixSubTableOverFlows)",)
+
+    def args(self, S, variant):
+        return {}
+
+    def call(self, f, a):
+        import itertools
+        import fontTools.ttLib.tables.otTables as ot
+        from fontTools.ttLib.tables.otBase import BaseTTXConverter, OTLOffsetOverflowError, OverflowErrorRecord
+        saved = ot.fixLookupOverFlows, ot.fixSubTableOverFlows
+        bad, count = [], 0
+        try:
+            for prev, item, split_ok, promote_ok in itertools.product(("same", "none", "other"), (None, "Coverage"), (0, 1), (0, 1)):
+                trace = []
+                rec = OverflowErrorRecord(("GSUB", 3, 1, item, 0))
+                last = {"same": rec, "none": None, "other": OverflowErrorRecord(("GSUB", 2, 1, item, 0))}[prev]
+                same = prev == "same"
+                font = object()
+
+                def promote(fnt, r, trace=trace, promote_ok=promote_ok, font=font, rec=rec):
+                    trace.append(("promote", fnt is font, r is rec))
+                    return promote_ok
+
+                def split(fnt, r, trace=trace, split_ok=split_ok, font=font, rec=rec):
+                    trace.append(("split", fnt is font, r is rec))
+                    return split_ok
+                ot.fixLookupOverFlows, ot.fixSubTableOverFlows = promote, split
+                t = BaseTTXConverter.__new__(BaseTTXConverter)
+                got = f(t, font, OTLOffsetOverflowError(rec), last)
+                count += 1
+                if same:
+                    want_trace, want = [], 0
+                elif item is None:
+                    # the promotion may be asked again after it answered 0 (it changes nothing then)
+                    want_trace, want = [("promote", True, True)], promote_ok
+                elif split_ok:
+                    want_trace, want = [("split", True, True)], split_ok
+                else:
+                    want_trace, want = [("split", True, True), ("promote", True, True)], promote_ok
+                squashed = [x for i, x in enumerate(trace) if not (i and x == trace[i - 1] and x[0] == "promote" and not promote_ok)]
+                if squashed != want_trace or bool(got) != bool(want):
+                    bad.append((same, item, split_ok, promote_ok, trace, got))
+        finally:
+            ot.fixLookupOverFlows, ot.fixSubTableOverFlows = saved
+        return count, bad
+
+    ensures = [prop("one-resolution-per-round-split-before-promotion", lambda a, old, r: r[0] == 24 and not r[1])]
